@@ -29,7 +29,7 @@ SPEC = dict(
                  "--ignore-vcs-tag is the documented opt-out: only 'tags do not influence the start' is asserted there",
                  "day-of-year 366 in a non-leap year is not generated (the statement does not say whether it matches)"],
     required=["fake_runs", "real_git_runs", "scope:default", "scope:global", "scope:branch", "ignore_runs",
-              "impossible_date_tags", "tie_cases", "uniqueness_checked", "no_matching_tag_cases"],
+              "impossible_date_tags", "tie_cases", "uniqueness_checked", "no_matching_tag_cases", "cli_tag_scope_overrides"],
     anchors=[("cli", "_parse_version_tags"), ("cli", "get_latest_vcs_version_tag"), ("cli", "_update_cfg_from_vcs"),
              ("vcs", "get_tags"), ("v2version", "is_valid")],
 )
@@ -142,7 +142,9 @@ def pick(R, tdy):
     return p, ast, names, rs[0], rs[1]
 
 
-def observe(ctx, case, d, env, p, ast, tdy, cur, tags_all, tags_merged, scope, scope_via, ignore, backend, kinds):
+def observe(ctx, case, d, env, p, ast, tdy, cur, tags_all, tags_merged, scope, cli_scope, ignore, backend, kinds):
+    """`scope` is the tag scope of the config file; `cli_scope` (or None) is given to `update` as --tag-scope and
+    overrides it there (`show` has no such option)."""
     acceptable, why = expected_start(ast, tdy, cur, tags_all, tags_merged, scope, ignore)
     args = ["show", "--no-fetch"] + (["--ignore-vcs-tag"] if ignore else [])
     res = harness.invoke(args, cwd=d, env=env)
@@ -182,8 +184,12 @@ def observe(ctx, case, d, env, p, ast, tdy, cur, tags_all, tags_merged, scope, s
         fl["patch"] = True
     date = dt.date(max(st.get("year_y") or 2021, 2001), st.get("month") or 6, min(st.get("dom") or 15, 28))
     uargs = ["update", "--dry", "--no-fetch"] + gen.flags_to_args(fl, date) + (["--ignore-vcs-tag"] if ignore else [])
-    if scope_via == "cli":
-        uargs += ["--tag-scope", scope]
+    if cli_scope:
+        uargs += ["--tag-scope", cli_scope]
+        ctx.count("cli_tag_scope_overrides")
+        scope = cli_scope
+        acceptable, why = expected_start(ast, tdy, cur, tags_all, tags_merged, scope, ignore)
+        desc = dict(desc, scope=f"{desc['scope']} overridden by --tag-scope {cli_scope}", expected=sorted(acceptable))
     ures = harness.invoke(uargs, cwd=d, env=env)
     if ures.crash:
         ctx.violation("impossible_date_tag_crashes" if ("impossible-date" in kinds and "ValueError" in ures.crash)
@@ -212,19 +218,19 @@ def run_fake(ctx, case):
     tags_all = [t for t, _k in tags]
     tags_merged = [t for t in tags_all if R.random() < 0.6]
     scope = R.choice(["default", "global", "branch"])
-    scope_via = R.choice(["cfg", "cli"]) if scope != "default" else R.choice(["cfg", "none"])
+    cli_scope = R.choice([None, None, "default", "global", "branch"])
     ignore = R.random() < 0.2
     # config relation: sometimes make the config version the greatest / equal to the greatest tag
     m = [t for t in tags_all if matches(ast, t, tdy)]
     if m and R.random() < 0.3:
         cur = max(m, key=vkey)
-    d = harness.new_project(make_project(p, cur, scope if scope_via == "cfg" or scope_via == "cli" else None))
+    d = harness.new_project(make_project(p, cur, scope if (scope != "default" or R.random() < 0.5) else None))
     fake = harness.FakeVCS(d, "git")
     try:
         fake.set_out("tag-list", "".join(t + "\n" for t in tags_all))
         fake.set_out("tag-merged", "".join(t + "\n" for t in tags_merged))
         ctx.count("fake_runs")
-        observe(ctx, case, d, fake.env, p, ast, tdy, cur, tags_all, tags_merged, scope, "cfg", ignore, "fake", kinds)
+        observe(ctx, case, d, fake.env, p, ast, tdy, cur, tags_all, tags_merged, scope, cli_scope, ignore, "fake", kinds)
     finally:
         harness.rm_dir(d)
         fake.destroy()
@@ -250,6 +256,7 @@ def run_real(ctx, case):
             if "/" not in t and ".." not in t and not t.startswith("-") and t.isascii() and len(t) < 40][:12]
     kinds = {k for _t, k in tags}
     scope = R.choice(["default", "global", "branch"])
+    cli_scope = R.choice([None, None, "default", "global", "branch"])
     ignore = R.random() < 0.15
     d = harness.new_project(make_project(p, cur, scope))
     try:
@@ -284,7 +291,7 @@ def run_real(ctx, case):
         tags_merged = [t for t in tags_all if placement[t] in reach]
         env = dict(GIT_ENV, HOME=d)
         ctx.count("real_git_runs")
-        observe(ctx, case, d, env, p, ast, tdy, cur, tags_all, tags_merged, scope, "cfg", ignore, "real-git:" + head, kinds)
+        observe(ctx, case, d, env, p, ast, tdy, cur, tags_all, tags_merged, scope, cli_scope, ignore, "real-git:" + head, kinds)
     finally:
         harness.rm_dir(d)
 
